@@ -237,6 +237,14 @@ func (g *gen) stratifiedOf(kind string) Recipe {
 		rc.Shape = sub.Shape
 		rc.Children = []Recipe{sub}
 		rc.Members = featureMembers[r.Intn(len(featureMembers))]
+		if r.Chance(0.5) {
+			// the LENGTH of the members text is a size dimension too
+			n := r.Pick(300, 5000, 70000)
+			if v, ok := g.nearConstant(64, 1<<21); ok {
+				n = v
+			}
+			rc.Members = padMembers(rc.Members, n, r.Chance(0.5))
+		}
 	}
 	if rc.Via == "parse" {
 		propagateOpts(&rc)
@@ -436,6 +444,13 @@ func (g *gen) recipe(kind string, depth int, small bool) Recipe {
 		ch.Opts = rc.Opts
 		rc.Children = []Recipe{ch}
 		rc.Members = featureMembers[r.Intn(len(featureMembers))]
+		if depth == 0 && r.Chance(0.2) {
+			n := r.Pick(5000, 70000)
+			if v, ok := g.nearConstant(1000, 1<<21); ok && r.Chance(0.7) {
+				n = v
+			}
+			rc.Members = padMembers(rc.Members, n, r.Chance(0.5))
+		}
 	}
 	if rc.Via == "parse" {
 		propagateOpts(&rc)
@@ -472,6 +487,23 @@ func shiftRecipe(rc *Recipe, dx, dy float64) {
 	for i := range rc.Children {
 		shiftRecipe(&rc.Children[i], dx, dy)
 	}
+}
+
+// padMembers lengthens a members text to about n bytes with one long foreign
+// member, placed before or after the existing members.
+func padMembers(members string, n int, before bool) string {
+	pad := n - len(members) - 12
+	if pad < 1 {
+		pad = 1
+	}
+	long := `"pad":"` + strings.Repeat("x", pad) + `"`
+	switch {
+	case members == "":
+		return long
+	case before:
+		return long + "," + members
+	}
+	return members + "," + long
 }
 
 func cloneRecipe(rc *Recipe) *Recipe {
@@ -780,15 +812,15 @@ func genSpec(seed uint64, worker, run int, tier string) (*Spec, *Rng, faultSet) 
 		kshape = r.Pick(0, 0, 16, 16, 16, 9, 13)
 	}
 	switch k := kshape; {
-	case k < 8:
+	case k < 6:
 		g.sweep(s, hot, fs)
-	case k < 12:
+	case k >= 8 && k < 12:
 		g.crowd(s, hot, fs)
-	case k < 15:
+	case k >= 12 && k < 14:
 		g.marathon(s, hot, fs, tier)
-	case k < 21:
+	case k >= 15 && k < 20:
 		g.argstormOn(s, fs, hot[0], stratifiedHot)
-	case k < 25:
+	case k >= 21 && k < 25:
 		g.duel(s)
 	}
 	s.Order = r.Perm(len(s.Tasks))
@@ -838,7 +870,7 @@ func (g *gen) marathon(s *Spec, hot []int, fs faultSet, tier string) {
 	nt := r.Pick(2, 2, 3)
 	h := hot[0]
 	lo, hi := 300, 1500
-	units := 1_500_000 // calls x points budget of one marathon caller
+	units := 600_000 // calls x points budget of one marathon caller
 	if tier == "thorough" {
 		lo, hi = 800, 6000
 		units = 6_000_000
@@ -923,7 +955,7 @@ func (g *gen) argstormOn(s *Spec, fs faultSet, target int, useTarget bool) {
 	nt := r.Pick(2, 2, 3, 4)
 	s.Tasks = nil
 	for t := 0; t < nt; t++ {
-		n := r.Range(15, 80)
+		n := r.Range(10, 50)
 		ops := make([]Op, n)
 		for i := range ops {
 			op := Op{M: ms[r.Intn(len(ms))], R: h, A: h}
